@@ -9,7 +9,7 @@ outside the whitelist.
 """
 import ast
 import os
-from .common import TranslationError, parse, find_class, find_func, HEADER, coq_str, sink_branch_locals
+from .common import TranslationError, parse, find_class, find_func, HEADER, coq_str, normalise
 
 OPTIMIZERS = [
     ('ABC', 'abc'), ('AIWPSO', 'aiwpso'), ('BA', 'ba'), ('BHA', 'bha'), ('CS', 'cs'), ('FA', 'fa'),
@@ -117,7 +117,7 @@ class Tr:
         file = 'opytimizer/optimizers/%s.py' % modname
         while True:
             tree, src = parse(self.repo, file)
-            sink_branch_locals(tree)
+            normalise(tree)
             c = find_class(tree, clsname)
             if c is None:
                 raise TranslationError(file, None, 'class %s not found' % clsname)
@@ -127,7 +127,7 @@ class Tr:
             base = c.bases[0].id
             if base == 'Optimizer':
                 t2, s2 = parse(self.repo, 'opytimizer/core/optimizer.py')
-                sink_branch_locals(t2)
+                normalise(t2)
                 out.append((find_class(t2, 'Optimizer'), 'opytimizer/core/optimizer.py', s2, t2))
                 return out
             # find import of base
